@@ -168,7 +168,7 @@ CONTRACTS_PC = dict(CONTRACTS, **{
     'stdnum.iso7064.mod_97_10:calc_check_digits': 'Py.Contracts.mod_97_10_calc_check_digits_pc',
     'stdnum.iso7064.mod_97_10:_to_base10': 'Py.Contracts.to_base10_pc',
 })
-PC_ERASE = ['Py.intOf_spec', 'Py.intOfBase_spec', 'Py.getItem_spec', 'Py.getItem_spec2', 'Py.getItemL_spec', 'Py.getItemL_spec2',
+PC_ERASE = ['Py.dictGet_spec2', 'Py.groupNamedR_spec', 'Py.groupR_spec', 'Py.intOf_spec', 'Py.intOfBase_spec', 'Py.getItem_spec', 'Py.getItem_spec2', 'Py.getItemL_spec', 'Py.getItemL_spec2',
             'Py.index_spec', 'Py.indexL_spec', 'Py.dictGet_spec', 'Py.optGet_spec', 'Py.pymod_spec', 'Py.pyfloordiv_spec',
             'Py.pydivmod_spec', 'Py.mkDate_spec', 'Py.monthrangeDays_spec', 'Py.ord_spec', 'Py.chr_spec', 'Py.asciiOnly_spec',
             'Py.mapM_spec', 'Py.filterMapM_spec', 'Py.maxInt_spec', 'Py.minInt_spec', 'Py.pypow_spec', 'Py.pypowmod_spec',
@@ -349,13 +349,301 @@ def fam_c02_fixed(man):
     return out
 
 
+def fam_c02_idem(man):
+    """validate x = ok v -> validate v = ok v and strip v = v, proved at the return point of validate: with all gates
+    in the context, the returned string is compact(x), a fixed point of compact (digit/alphabet/regex gates make the
+    clean-up steps identities; strip/lstrip/zfill steps are idempotent) and of strip; then the generated C03 theorem."""
+    F = man['functions']
+    out = []
+    for mod, m in sorted(man['modules'].items()):
+        v, c = F.get(mod + ':validate'), F.get(mod + ':compact')
+        if mod in GENERIC_MODULES or not _is_candidate(F, mod) or not c or not c['ok'] or mod in C03_EXCLUDED:
+            continue
+        if c['params'] != ['number'] or c['ptypes'] != ['str'] or c['today'] or c['rtype'] != 'str':
+            continue
+        unfold, specs, callees = contract_closure(F, mod + ':validate', CONTRACTS_PC, GENERIC_MODULES)
+        if not all(F[k]['ok'] for k in unfold) or callees:
+            continue
+        ns = m['ns']
+        today = '(today__ : Date) ' if v['today'] else ''
+        bs = ' '.join('(%s : %s)' % (mangle(p) + "'", lean_type(t)) for p, t in zip(v['params'], v['ptypes']))
+        first = mangle(v['params'][0]) + "'"
+        vt = ' today__' if v['today'] else ''
+        opts = ''.join(' ' + mangle(p) + "'" for p in v['params'][1:])
+        imports = {'Gen.' + man['modules'][k.split(':')[0]]['ns'] for k in unfold} | {'Gen.' + ns, 'Lemmas.Contracts', 'Props.Auto.C03_' + ns}
+        pfx = 'Props.Auto.C02i.%s' % ns
+        mv = ', '.join([F[k]['lean'] for k in unfold] + sorted(set(specs)) + ['Py.stateT_pure_apply', 'Py.earlyReturn_eq']
+                       + ['-' + x for x in PC_ERASE] + PC_SPECS)
+        post = '%s %s = .ok v ∧ %s v = .ok v ∧ Py.strip v = v' % (c['lean'], first, c['lean'])
+        src = ('set_option maxHeartbeats %d in\n'
+               'theorem %s.validate_compact %s%s :\n'
+               '    Py.Holds (%s%s %s%s) (fun v => %s) (fun _ => True) := by\n'
+               '  apply Py.holds_of_triple\n  mvcgen [%s]\n'
+               '  try any_goals (exact post⟨fun _ => ⌜True⌝, fun _ => ⌜True⌝⟩)\n'
+               '  all_goals (try (mleave; done))\n'
+               '  all_goals (clear_jps; py_c02 %s)\n\n' % (
+                   CONTRACT_HEARTBEATS, pfx, today, bs, v['lean'], vt, first, opts, post, mv, c['lean']) +
+               'theorem %s.validate_fixed %s%s (v : Str)\n'
+               '    (h : %s%s %s%s = .ok v) :\n'
+               '    %s%s v%s = .ok v ∧ Py.strip v = v := by\n'
+               '  have h1 := %s.validate_compact%s %s%s\n'
+               '  rw [h] at h1\n'
+               '  obtain ⟨hc, h2, h3⟩ : %s := h1\n'
+               '  have h4 := Props.Auto.C03.%s.validate_of_compact%s %s v%s (hc.trans h2.symm)\n'
+               '  exact ⟨h4 ▸ h, h3⟩\n' % (
+                   pfx, today, bs, v['lean'], vt, first, opts, v['lean'], vt, opts,
+                   pfx, vt, first, opts, post, ns, vt, first, opts))
+        out.append({'name': pfx + '.validate_fixed', 'ns': ns, 'covers': mod, 'family': 'C02i', 'src': src,
+                    'imports': sorted(imports),
+                    'prelude': 'open Py Std.Do\nset_option mvcgen.warning false\nset_option linter.unusedVariables false\npy_setup\n'})
+    return out
+
+
+def _validate_gate_facts(src):
+    """gates of `def validate` that are stated on the returned variable `number` at top level: Lean propositions
+    about `v` (used as the summary of an accepted number in the getter theorems)"""
+    m = re.search(r'^def validate .*?(?=^def |^end )', src, re.S | re.M)
+    if not m:
+        return []
+    body = m.group(0)
+    if not re.search(r'^  return number\s*$', body, re.M):
+        return []
+    facts = []
+    if re.search(r'^  if !\(← Gen\.util\.isdigits number\) then', body, re.M):
+        facts.append('isDigitsB v = true')
+    lm = re.search(r'^  if \(\(\(number\)\.length : Int\) != \((\d+) : Int\)\) then', body, re.M)
+    if lm:
+        facts.append('((v).length : Int) = %s' % lm.group(1))
+    else:
+        lm = re.search(r'^  if !\(\(\(\[([^\]]*)\] : List Int\)\)\.contains \(\(number\)\.length : Int\)\) then', body, re.M)
+        if lm:
+            ns_ = re.findall(r'\((\d+) : Int\)', lm.group(1))
+            if ns_:
+                facts.append('(' + ' ∨ '.join('((v).length : Int) = %s' % n for n in ns_) + ')')
+    rm = re.search(r'^  if !\(\(\(Re\.match_ (Gen\.[A-Za-z0-9_.]+) number\)\)\.isSome\) then', body, re.M)
+    if rm:
+        facts.append('(Re.match_ %s v).isSome = true' % rm.group(1))
+    return facts
+
+
+def fam_c12_getters(man):
+    """after validate(v) returned v, every public getter (get_*, info, split; `number` the only required parameter)
+    raises nothing but validation errors:  validate v = ok v -> Holds (getter v) True isValidation.
+    The getter contract is proved *inside* the post-condition of a partial-correctness run of validate
+    (`r = v -> Holds (getter v) ..`), so all gates validate passed are in the context of the getter's conditions."""
+    F = man['functions']
+    out = []
+    for mod, m in sorted(man['modules'].items()):
+        v = F.get(mod + ':validate')
+        if mod in GENERIC_MODULES or not _is_candidate(F, mod):
+            continue
+        vunfold, vspecs, vcallees = contract_closure(F, mod + ':validate', CONTRACTS_PC, GENERIC_MODULES)
+        if not all(F[k]['ok'] for k in vunfold) or vcallees:
+            continue
+        ns = m['ns']
+        for key, g in sorted(F.items()):
+            gmod, gname = key.split(':')
+            if gmod != mod or not (gname.startswith('get_') or gname in ('info', 'split')) or not g['ok']:
+                continue
+            if not g['params'] or g['params'][0] != 'number' or g['ptypes'][0] != 'str':
+                continue
+            if [p for p in g['params'][1:] if p not in g['defaults']]:
+                continue
+            gunfold, gspecs, gcallees = contract_closure(F, key, CONTRACTS, GENERIC_MODULES)
+            if not all(F[k]['ok'] for k in gunfold) or gcallees:
+                continue
+            today = '(today__ : Date) ' if (v['today'] or g['today']) else ''
+            vbs = ' '.join('(%s : %s)' % (mangle(p) + "'", lean_type(t)) for p, t in zip(v['params'][1:], v['ptypes'][1:]))
+            gbs = ' '.join('(g_%s : %s)' % (mangle(p), lean_type(t)) for p, t in zip(g['params'][1:], g['ptypes'][1:]))
+            vcall = '%s%s v%s' % (v['lean'], ' today__' if v['today'] else '', ''.join(' ' + mangle(p) + "'" for p in v['params'][1:]))
+            gcall = '%s%s v%s' % (g['lean'], ' today__' if g['today'] else '', ''.join(' g_' + mangle(p) for p in g['params'][1:]))
+            goal = 'Py.Holds (%s) (fun _ => True) (fun e => e.isValidation = true)' % gcall
+            mv_v = ', '.join([F[k]['lean'] for k in vunfold] + sorted(set(vspecs)) + ['Py.stateT_pure_apply', 'Py.earlyReturn_eq']
+                             + ['-' + x for x in PC_ERASE] + PC_SPECS)
+            mv_g = ', '.join([F[k]['lean'] for k in gunfold] + sorted(set(gspecs)) + ['Py.stateT_pure_apply', 'Py.earlyReturn_eq'])
+            imports = {'Gen.' + man['modules'][k.split(':')[0]]['ns'] for k in vunfold + gunfold} | {'Gen.' + ns, 'Lemmas.Contracts'}
+            name = 'Props.Auto.C12g.%s.%s_after_validate' % (ns, gname)
+            try:
+                facts = _validate_gate_facts(open(os.path.join(common.LEAN_DIR, 'Gen', ns + '.lean')).read())
+            except OSError:
+                facts = []
+            if facts:
+                # cheap variant: summarise the accepted number by the top-level gates, then verify the getter once
+                fact = ' ∧ '.join(facts)
+                pat = ', '.join('hf%d' % i for i in range(len(facts)))
+                src = ('set_option maxHeartbeats %d in\n'
+                       'theorem %s %s(v : Str) %s %s\n    (h : %s = .ok v) :\n    %s := by\n'
+                       '  have hs : Py.Holds (%s) (fun v => %s) (fun _ => True) := by\n'
+                       '    apply Py.holds_of_triple\n'
+                       '    mvcgen [%s]\n'
+                       '    try any_goals (exact post⟨fun _ => ⌜True⌝, fun _ => ⌜True⌝⟩)\n'
+                       '    all_goals (try (mleave; done))\n'
+                       '    all_goals (clear_jps; py_gates)\n'
+                       '  rw [h] at hs\n'
+                       '  obtain ⟨%s⟩ : %s := hs\n'
+                       '  apply Py.holds_of_triple\n'
+                       '  mvcgen [%s]\n%s' % (
+                           CONTRACT_HEARTBEATS, name, today, vbs, gbs, vcall, goal, vcall, fact, mv_v, pat, fact, mv_g, VC_SCRIPT))
+                out.append({'name': name, 'ns': ns + '__' + gname, 'covers': mod + ':' + gname, 'family': 'C12g', 'src': src,
+                            'imports': sorted(imports),
+                            'prelude': 'open Py Std.Do\nset_option mvcgen.warning false\nset_option linter.unusedVariables false\npy_setup\n'})
+                continue
+            src = ('set_option maxHeartbeats %d in\n'
+                   'theorem %s %s(v : Str) %s %s\n    (h : %s = .ok v) :\n    %s := by\n'
+                   '  have hs : Py.Holds (%s) (fun r => r = v → %s) (fun _ => True) := by\n'
+                   '    apply Py.holds_of_triple\n'
+                   '    mvcgen [%s]\n'
+                   '    try any_goals (exact post⟨fun _ => ⌜True⌝, fun _ => ⌜True⌝⟩)\n'
+                   '    all_goals (try (mleave; done))\n'
+                   '    all_goals (clear_jps; intro heq__; py_zeta; py_getter_eq heq__; apply Py.holds_of_triple; mvcgen [%s]\n'
+                   '      <;> (try (first | exact post⟨fun _ => ⌜True⌝, fun e => ⌜e.isValidation = true⌝⟩ | (mleave; done))))\n'
+                   '    all_goals (clear_jps; py_vc)\n'
+                   '  rw [h] at hs\n  exact hs rfl\n' % (
+                       CONTRACT_HEARTBEATS, name, today, vbs, gbs, vcall, goal, vcall, goal, mv_v, mv_g))
+            out.append({'name': name, 'ns': ns + '__' + gname, 'covers': mod + ':' + gname, 'family': 'C12g', 'src': src, 'imports': sorted(imports),
+                        'prelude': 'open Py Std.Do\nset_option mvcgen.warning false\nset_option linter.unusedVariables false\npy_setup\n'})
+    return out
+
+
+def _split_top(text, sep):
+    """split `text` at the first occurrence of `sep` that is not inside parentheses/brackets"""
+    depth = 0
+    i = 0
+    while i < len(text):
+        ch = text[i]
+        if ch in '([':
+            depth += 1
+        elif ch in ')]':
+            depth -= 1
+        elif depth == 0 and text.startswith(sep, i):
+            return text[:i], text[i + len(sep):]
+        i += 1
+    return None
+
+
+def _strip_parens(t):
+    t = t.strip()
+    while t.startswith('(') and t.endswith(')'):
+        depth = 0
+        ok = True
+        for i, ch in enumerate(t):
+            if ch == '(':
+                depth += 1
+            elif ch == ')':
+                depth -= 1
+                if depth == 0 and i != len(t) - 1:
+                    ok = False
+                    break
+        if not ok:
+            break
+        t = t[1:-1].strip()
+    return t
+
+
+def _checksum_guards(src):
+    """the top-level `if gen(payload) != check: raise InvalidChecksum` statements of `def validate` in a generated file:
+    [(generator, payload arguments (Lean text), check expression (Lean text), check is monadic)]"""
+    m = re.search(r'^def validate .*?(?=^def |^end )', src, re.S | re.M)
+    if not m:
+        return []
+    lines = m.group(0).split('\n')
+    out = []
+    for i, ln in enumerate(lines):
+        if not (ln.startswith('  if ((') and ln.rstrip().endswith(') then')):
+            continue
+        if i + 1 >= len(lines) or 'Py.raise .invalidChecksum' not in lines[i + 1]:
+            continue
+        cond = _strip_parens(ln.strip()[3:-5])
+        parts = _split_top(cond, ' != ')
+        if not parts:
+            continue
+        a, b = _strip_parens(parts[0]), _strip_parens(parts[1])
+        if b.startswith('← Gen.') and not a.startswith('← Gen.'):
+            a, b = b, a
+        gm = re.match(r'← (Gen\.[A-Za-z0-9_]+\.[A-Za-z0-9_]+)\s*(.*)$', a, re.S)
+        if not gm:
+            continue
+        gen, args = gm.group(1), gm.group(2).strip()
+        if b.startswith('← Py.getItem number '):
+            chk, mon = b[2:], True
+        elif b.startswith('Py.slice number '):
+            chk, mon = b, False
+        else:
+            continue
+        text = args + ' ' + chk
+        if '←' in text:
+            continue
+        idents = set(re.findall(r'(?<![A-Za-z0-9_.])[a-z_][A-Za-z0-9_]*(?![A-Za-z0-9_.])', re.sub(r'\([^()]*: [A-Za-z]+\)', '', text)))
+        if idents - {'number', 'none', 'some'}:
+            continue
+        out.append((gen, args, chk, mon))
+    return out
+
+
+def fam_c05_generators(man):
+    """the check-digit generator reproduces the check character(s) of every accepted number (C05): for each top-level
+    `if gen(payload(number)) != check(number): raise InvalidChecksum` of validate,
+    validate x = ok v -> exists w, gen (payload v) = ok w and check v = ok w.   Partial-correctness run of validate
+    in which the generator and `s[i]` get their reflexive specs, so the guard's two sides are in the context."""
+    F = man['functions']
+    lean2key = {f['lean']: k for k, f in F.items()}
+    out = []
+    for mod, m in sorted(man['modules'].items()):
+        v = F.get(mod + ':validate')
+        if mod in GENERIC_MODULES or not _is_candidate(F, mod):
+            continue
+        ns = m['ns']
+        try:
+            src = open(os.path.join(common.LEAN_DIR, 'Gen', ns + '.lean')).read()
+        except OSError:
+            continue
+        guards = _checksum_guards(src)
+        for idx, (gen, gargs, chk, mon) in enumerate(guards):
+            gkey = lean2key.get(gen)
+            if not gkey or not F[gkey]['ok']:
+                continue
+            g = F[gkey]
+            unfold, specs, callees = contract_closure(F, mod + ':validate', dict(CONTRACTS_PC, **{gkey: None}), GENERIC_MODULES)
+            if not all(F[k]['ok'] for k in unfold) or callees:
+                continue
+            specs = [x for x in specs if x]
+            today = '(today__ : Date) ' if (v['today'] or g['today']) else ''
+            bs = ' '.join('(%s : %s)' % (mangle(p) + "'", lean_type(t)) for p, t in zip(v['params'], v['ptypes']))
+            vcall = '%s%s%s' % (v['lean'], ' today__' if v['today'] else '', ''.join(' ' + mangle(p) + "'" for p in v['params']))
+            sub = lambda t: re.sub(r'(?<![A-Za-z0-9_.])number(?![A-Za-z0-9_.])', 'v', t)
+            gcall = '%s%s %s' % (gen, ' today__' if g['today'] else '', sub(gargs))
+            stmt = ('∃ w, %s = .ok w ∧ %s = .ok w' % (gcall, sub(chk))) if mon else ('%s = .ok (%s)' % (gcall, sub(chk)))
+            gbs = ('(today__ : Date) ' if g['today'] else '') + ' '.join('(a%d : %s)' % (i, lean_type(t)) for i, t in enumerate(g['ptypes']))
+            gapp = gen + (' today__' if g['today'] else '') + ''.join(' a%d' % i for i in range(len(g['ptypes'])))
+            pfx = 'Props.Auto.C05g.%s' % ns
+            gname = '%s.graph_%d' % (pfx, idx)
+            mv = ', '.join([F[k]['lean'] for k in unfold] + sorted(set(specs)) + [gname, 'Py.stateT_pure_apply', 'Py.earlyReturn_eq']
+                           + ['-' + x for x in PC_ERASE] + [x for x in PC_SPECS if x != 'Py.getItem_pc'] + ['Py.getItem_graph'])
+            imports = {'Gen.' + man['modules'][k.split(':')[0]]['ns'] for k in unfold} | {'Gen.' + ns, 'Gen.' + man['modules'][gkey.split(':')[0]]['ns'], 'Lemmas.Contracts'}
+            name = '%s.generator_agrees_%d' % (pfx, idx)
+            src_t = ('theorem %s %s :\n    ⦃⌜True⌝⦄ %s ⦃post⟨fun r => ⌜%s = .ok r⌝, fun _ => ⌜True⌝⟩⦄ :=\n  Py.pc_triple (fun _ h => h)\n\n' % (
+                         gname, gbs, gapp, gapp) +
+                     'set_option maxHeartbeats %d in\n'
+                     'theorem %s %s%s (v : Str)\n    (h : %s = .ok v) :\n    %s := by\n'
+                     '  have hs : Py.Holds (%s) (fun v => %s) (fun _ => True) := by\n'
+                     '    apply Py.holds_of_triple\n    mvcgen [%s]\n'
+                     '    try any_goals (exact post⟨fun _ => ⌜True⌝, fun _ => ⌜True⌝⟩)\n'
+                     '    all_goals (try (mleave; done))\n'
+                     '    all_goals (clear_jps; py_c05)\n'
+                     '  rw [h] at hs\n  exact hs\n' % (CONTRACT_HEARTBEATS, name, today, bs, vcall, stmt, vcall, stmt, mv))
+            out.append({'name': name, 'ns': '%s__%d' % (ns, idx), 'covers': '%s:%s:%d' % (mod, gen.split('.')[-1], idx), 'family': 'C05g',
+                        'src': src_t, 'imports': sorted(imports),
+                        'prelude': 'open Py Std.Do\nset_option mvcgen.warning false\nset_option linter.unusedVariables false\npy_setup\n'})
+    return out
+
+
 def fam_c01_nonempty(man):
     """... and what it returns is a non-empty string (so bool(validate(x)) is True exactly when it returns)"""
     return _contract(man, 'C01n', 'v ≠ []', 'validate_nonempty')
 
 
-FAMILIES = {'C15a': fam_c15_ascii, 'C02f': fam_c02_fixed, 'C03': fam_c03, 'C04': fam_c04_format, 'C01v': fam_c01_isvalid, 'C01c': fam_c01_contract, 'C01n': fam_c01_nonempty}
-FAMILY_PROPERTY = {'C15a': 'C15', 'C02f': 'C02', 'C03': 'C03', 'C04': 'C04', 'C01v': 'C01', 'C01c': 'C01', 'C01n': 'C01'}
+FAMILIES = {'C15a': fam_c15_ascii, 'C02f': fam_c02_fixed, 'C02i': fam_c02_idem, 'C12g': fam_c12_getters, 'C05g': fam_c05_generators, 'C03': fam_c03, 'C04': fam_c04_format, 'C01v': fam_c01_isvalid, 'C01c': fam_c01_contract, 'C01n': fam_c01_nonempty}
+FAMILY_PROPERTY = {'C15a': 'C15', 'C02f': 'C02', 'C02i': 'C02', 'C12g': 'C12', 'C05g': 'C05', 'C03': 'C03', 'C04': 'C04', 'C01v': 'C01', 'C01c': 'C01', 'C01n': 'C01'}
 
 
 def emit(all_candidates=False, only_family=None):
@@ -364,6 +652,7 @@ def emit(all_candidates=False, only_family=None):
     os.makedirs(auto, exist_ok=True)
     keep = set()
     roots = []
+    pending = []
     summary = {}
     for fam, fn in FAMILIES.items():
         if only_family and fam != only_family:
@@ -383,18 +672,47 @@ def emit(all_candidates=False, only_family=None):
             by_file.setdefault('%s_%s' % (fam, c['ns']), []).append(c)
         for fname, items in by_file.items():
             imports = sorted({i for c in items for i in c['imports']})
-            text = ''.join('import %s\n' % i for i in imports) + items[0]['prelude'] + '\n' + '\n'.join(c['src'] for c in items)
-            path = os.path.join(auto, fname + '.lean')
-            keep.add(os.path.abspath(path))
-            old = open(path).read() if os.path.exists(path) else None
-            if old != text:
-                with open(path, 'w') as f:
-                    f.write(text)
+            pending.append((fam, fname, items, imports))
             roots.append('Props.Auto.' + fname)
         summary[fam] = {'candidates': len(cands), 'emitted': sum(len(v) for v in by_file.values())}
         if all_candidates:
             json.dump([{k: v for k, v in c.items() if k != 'src'} | {'module': 'Props.Auto.%s_%s' % (fam, c['ns'])} for c in cands],
                       open(os.path.join(common.WORK, 'candidates-%s.json' % fam), 'w'), indent=0)
+    # Files about the same Python module are chained by imports (normal mode only): Lean realises auxiliary
+    # declarations of the generated definitions (`Gen.m.validate.match_1.congr_eq_1...`) lazily in whichever module
+    # first needs them, and two modules that both did cannot be imported together (umbrella, axiom audit).
+    chain = not all_candidates and not only_family
+    extra = {}
+    if chain:
+        groups = {}
+        for fam, fname, items, imports in pending:
+            groups.setdefault((items[0].get('covers') or items[0]['ns']).split(':')[0], []).append((fname, imports))
+        for key, files in groups.items():
+            names = [f for f, _ in files]
+            deps = {f: [n for n in names if n != f and 'Props.Auto.' + n in imp] for f, imp in files}
+            order, seen = [], set()
+
+            def visit(f):
+                if f in seen:
+                    return
+                seen.add(f)
+                for d in deps[f]:
+                    visit(d)
+                order.append(f)
+            for f in names:
+                visit(f)
+            for a, b in zip(order, order[1:]):
+                extra[b] = 'Props.Auto.' + a
+    for fam, fname, items, imports in pending:
+        if fname in extra and extra[fname] not in imports:
+            imports = sorted(set(imports) | {extra[fname]})
+        text = ''.join('import %s\n' % i for i in imports) + items[0]['prelude'] + '\n' + '\n'.join(c['src'] for c in items)
+        path = os.path.join(auto, fname + '.lean')
+        keep.add(os.path.abspath(path))
+        old = open(path).read() if os.path.exists(path) else None
+        if old != text:
+            with open(path, 'w') as f:
+                f.write(text)
     if not only_family:
         for fn in os.listdir(auto):
             p = os.path.abspath(os.path.join(auto, fn))
